@@ -81,6 +81,7 @@ type Env struct {
 	GiveCreate, GiveDelete, GivePatch map[string]bool
 	GiveStatus                        map[int]bool
 	GaveUp                            bool
+	raceGet                           string // pod name whose next GET is raced by its disappearance + delete event
 	// error class of a refused pod DELETE (by pod name): 0 / absent = InternalError, 1 Timeout, 2 ServerTimeout,
 	// 3 TooManyRequests, 4 Conflict, 5 InternalError; the delete is never applied when it is refused
 	DeleteClass map[string]int
@@ -174,6 +175,30 @@ func (e *Env) installReactors() {
 			pod.Status.Phase = v1.PodPending
 		}
 		return false, nil, nil
+	})
+	// the resync worker's GET (syncTask): when armed for this pod, the pod goes away and its delete event
+	// reaches the controller after the GET was served and before the worker touches the job cache
+	e.Kube.PrependReactor("get", "pods", func(a k8stesting.Action) (bool, runtime.Object, error) {
+		ga := a.(k8stesting.GetAction)
+		if e.raceGet == "" || ga.GetName() != e.raceGet {
+			return false, nil, nil
+		}
+		e.raceGet = ""
+		obj, err := e.Kube.Tracker().Get(PodGVR, ga.GetNamespace(), ga.GetName())
+		if err != nil {
+			return true, nil, err
+		}
+		stale := obj.(*v1.Pod).DeepCopy()
+		e.APIRemovePod(ga.GetNamespace(), ga.GetName())
+		if d, ok := e.dPods[ga.GetName()]; ok {
+			ix := e.Ctl.VerifPodIndexer()
+			if o, found, _ := ix.GetByKey(ga.GetNamespace() + "/" + ga.GetName()); found {
+				must(ix.Delete(o))
+			}
+			e.Ctl.VerifDeletePod(d)
+			delete(e.dPods, ga.GetName())
+		}
+		return true, stale, nil
 	})
 	e.Kube.PrependReactor("delete", "pods", func(a k8stesting.Action) (bool, runtime.Object, error) {
 		da := a.(k8stesting.DeleteAction)
@@ -664,6 +689,40 @@ func (e *Env) ReplaceJob(ns string, spec batch.JobSpec) {
 	j.ResourceVersion = e.nextRV()
 	j.Spec = spec
 	must(e.VC.Tracker().Add(j))
+	e.Ctl.VerifDrainRequests()
+}
+
+// ResyncPod runs the resync worker's syncTask for one pod (what processResyncTask does with a pod that a
+// failed delete queued).  The harness's record of what the informers delivered follows what syncTask did to
+// the job cache.
+func (e *Env) ResyncPod(ns, name string, race bool) {
+	var old *v1.Pod
+	if d, ok := e.dPods[name]; ok {
+		old = d
+	} else if p := e.APIPod(ns, name); p != nil {
+		old = p
+	} else {
+		return // a pod nobody knows: syncTask would GET NotFound and fail to delete it from the cache
+	}
+	api := e.APIPod(ns, name)
+	if race && api != nil {
+		e.raceGet = name
+	}
+	_ = e.Ctl.VerifSyncTask(old.DeepCopy())
+	e.raceGet = ""
+	switch {
+	case api == nil:
+		// cache.DeletePod; the informer's delete event is still to come (SyncPods delivers it, the cache
+		// then has nothing to delete)
+	case race:
+		// removed by the delete event inside the GET; the stale UpdatePod is refused
+	default:
+		if _, ok := e.dPods[name]; ok {
+			p := api.DeepCopy() // cache.UpdatePod with the fetched object; the lister catches up as well
+			must(e.Ctl.VerifPodIndexer().Update(p))
+			e.dPods[name] = p
+		}
+	}
 	e.Ctl.VerifDrainRequests()
 }
 
